@@ -19,7 +19,7 @@ from .values import (
     VStr, VTuple, VFunc, ObjModel,
 )
 from .extract import find_target, fn_fingerprint, ExtractError
-from .paths import Explorer, PathEnd, Budget, timed_check
+from .paths import Explorer, PathEnd, Budget, timed_check, _has_quantifier
 from .symex import Interp, Env, PyRaise, ReturnSig, class_chain
 
 CVC5 = "/usr/bin/cvc5"
@@ -360,6 +360,74 @@ def unjson(x):
 
 # --------------------------------------------------------------------------
 
+def _discharge_payload(ob, timeout_s):
+    res = discharge_one(ob, timeout_s)
+    m = res.pop("model", None)
+    if m is not None:
+        res["model_str"] = str(m)[:4000]
+        if ob.inputs:
+            try:
+                res["inputs"] = jsonable({k: concretize(v, m) for k, v in ob.inputs.items()})
+            except Exception as e:  # noqa: BLE001
+                res["inputs_error"] = repr(e)
+    return res
+
+
+def discharge_all(obs, timeout_s):
+    """discharge a list of obligations in a forked child that streams results back; the parent
+    enforces a hard per-obligation deadline (z3's soft timeout is not always honoured): a child
+    that goes silent is killed, the obligation it was working on is `unknown`, and a new child
+    continues with the rest.  Returns a list of result dicts aligned with obs."""
+    import multiprocessing as mp
+    results = [None] * len(obs)
+    todo = []
+    for i, ob in enumerate(obs):
+        if z3.is_true(ob.goal):
+            results[i] = {"verdict": "proved", "backend": "simplifier", "time": 0.0}
+        else:
+            todo.append(i)
+    ctx = mp.get_context("fork")
+    deadline = 3 * timeout_s + 10
+    while todo:
+        parent, child = ctx.Pipe(duplex=False)
+
+        def work(conn, todo=list(todo)):
+            try:
+                for i in todo:
+                    try:
+                        conn.send((i, _discharge_payload(obs[i], timeout_s)))
+                    except BaseException as e:  # noqa: BLE001
+                        conn.send((i, {"verdict": "unknown", "backend": "error", "time": 0.0, "reason": repr(e)}))
+            finally:
+                conn.close()
+                os._exit(0)
+
+        p = ctx.Process(target=work, args=(child,))
+        p.start()
+        child.close()
+        while todo:
+            t0 = time.time()
+            got = None
+            if parent.poll(deadline):
+                try:
+                    got = parent.recv()
+                except EOFError:
+                    got = None
+            if got is None:
+                # silent or dead child: the first outstanding obligation is undecided
+                i = todo.pop(0)
+                results[i] = {"verdict": "unknown", "backend": "z3+cvc5", "time": time.time() - t0,
+                              "reason": "hard deadline / worker died"}
+                break
+            i, res = got
+            results[i] = res
+            todo.remove(i)
+        p.kill()
+        p.join(2)
+        parent.close()
+    return results
+
+
 def verify_function(reg, key, timeout_s=10.0, budget=None):
     """generate + discharge; returns a JSON-able dict"""
     t0 = time.time()
@@ -372,33 +440,33 @@ def verify_function(reg, key, timeout_s=10.0, budget=None):
     out = {"key": key, "error": run.error, "paths": run.paths, "fingerprint": run.fingerprint,
            "obligations": [], "solver_calls": run.solver_calls, "gen_s": round(run.gen_s, 3)}
     canary_refuted = 0
-    seen = {}
+    real = []
     for ob in run.obligations:
         if ob.kind == "canary":
-            # vacuity guard: `False` must be refutable on this path, i.e. the path is feasible
+            # vacuity guard: `False` must not be provable on this path, i.e. the path is feasible
             s = z3.Solver()
-            s.set("timeout", 5000)
+            s.set("timeout", 3000)
             for f in ob.pc:
-                s.add(f)
-            r = timed_check(s, 6.0)
+                if not _has_quantifier(f):
+                    s.add(f)
+            r = timed_check(s, 3.0)
             if r != z3.unsat:
                 canary_refuted += 1
             continue
-        res = discharge_one(ob, timeout_s)
+        real.append(ob)
+    for ob, res in zip(real, discharge_all(real, timeout_s)):
         rec = {
             "name": ob.label, "kind": ob.kind, "clause": ob.info.get("clause", ""), "line": ob.line,
             "path": "".join(str(d) for d in ob.path), "verdict": res["verdict"], "backend": res["backend"],
             "time": round(res["time"], 4),
         }
         if res["verdict"] == "refuted":
-            m = res.get("model")
-            if m is not None:
-                rec["model"] = str(m)[:4000]
-                if ob.inputs:
-                    try:
-                        rec["inputs"] = jsonable({k: concretize(v, m) for k, v in ob.inputs.items()})
-                    except Exception as e:  # noqa: BLE001
-                        rec["inputs_error"] = repr(e)
+            if res.get("model_str"):
+                rec["model"] = res["model_str"]
+            if "inputs" in res:
+                rec["inputs"] = res["inputs"]
+            if "inputs_error" in res:
+                rec["inputs_error"] = res["inputs_error"]
         if res["verdict"] == "unknown":
             rec["reason"] = res.get("reason", "")
         out["obligations"].append(rec)
